@@ -881,8 +881,17 @@ pub mod img {
 /// Bind an ephemeral loopback port, release it and return its number (the tool under test binds
 /// it next; the caller retries with another port if the tool could not).
 pub fn free_port() -> u16 {
-    let l = std::net::TcpListener::bind(("127.0.0.1", 0)).expect("bind port 0");
-    l.local_addr().unwrap().port()
+    // never hand the same port out twice within this process: shards start their servers concurrently,
+    // and a port released here can be offered again by the kernel before the first tool has bound it
+    static HANDED_OUT: std::sync::Mutex<Option<std::collections::HashSet<u16>>> = std::sync::Mutex::new(None);
+    loop {
+        let l = std::net::TcpListener::bind(("127.0.0.1", 0)).expect("bind port 0");
+        let port = l.local_addr().unwrap().port();
+        let mut g = HANDED_OUT.lock().unwrap_or_else(|e| e.into_inner());
+        if g.get_or_insert_with(Default::default).insert(port) {
+            return port;
+        }
+    }
 }
 
 // ------------------------------------------------------------------------------------------------
